@@ -23,6 +23,15 @@ RULE = ("2-3 reader threads (listdir / getinfo / exists / isdir / open+seek+read
 PYFAT_DIR = os.path.dirname(pyfatfs.__file__)
 
 
+def _tree_funcs():
+    import ast
+    t = ast.parse(open(os.path.join(PYFAT_DIR, "FATDirectoryEntry.py")).read())
+    return {n.name for n in ast.walk(t) if isinstance(n, (ast.FunctionDef, ast.AsyncFunctionDef))}
+
+
+TREE_FUNCS = _tree_funcs()
+
+
 def reader_prog(rng, tree):
     files = sorted(p for p, t in tree.items() if t[0] == "f")
     dirs = ["/"] + sorted(p for p, t in tree.items() if t[0] == "d")
@@ -135,6 +144,30 @@ def run(ctx):
             for _ in range(ctx.scale(15, 150)):
                 a, b = sorted(rng.sample(range(1, max(3, n + 20)), 2))
                 one_schedule(ctx, img, progs, solo, S.preempt_policy({a: 0, b: rng.choice([0, 1])}), False, label, dict(rep0, preempt={a: 0, b: 1}))
+            # one pre-emption at every distinct source line of the in-memory directory tree (FATDirectoryEntry.py: the state readers share and, with
+            # lazy loading, mutate) that thread t executes, for each thread t; thorough: at every distinct line of every pyfatfs module (D33)
+            if pi == 0 or ctx.tier == "thorough":
+                scb = S.Sched(len(progs), S.preempt_policy({}))
+                scb.record_kinds = True
+                fb, _ = mount(img, scb)
+                S.run_threads(scb, [lambda p=p: do_ops(fb, p) for p in progs], pyfat_dir=PYFAT_DIR, line_mode=True, timeout=60)
+                scb2 = S.Sched(len(progs), S.kind_preempt_policy(-1, None, first=len(progs) - 1))
+                scb2.record_kinds = True
+                fb2, _ = mount(img, scb2)
+                S.run_threads(scb2, [lambda p=p: do_ops(fb2, p) for p in progs], pyfat_dir=PYFAT_DIR, line_mode=True, timeout=60)
+                for t in range(len(progs)):
+                    kinds = dict(scb.kinds.get(t, {}))
+                    kinds.update({k: 0 for k in scb2.kinds.get(t, {})})
+                    lines = [k for k in kinds if k.startswith("line:")]
+                    if ctx.tier == "quick":
+                        lines = [k for k in lines if k.split(":")[1] in TREE_FUNCS]
+                    cap_l = ctx.scale(160, 1500)
+                    if len(lines) > cap_l:
+                        lines = rng.sample(lines, cap_l)
+                    for k in lines:
+                        one_schedule(ctx, img, progs, solo, S.kind_preempt_policy(t, k, first=t), True, label, dict(rep0, line_preempt=[t, k]))
+                        ctx.dist["line-preemption"] += 1
+            # (and random line-level schedules)
             for k in range(ctx.scale(6, 80)):
                 seed = rng.randrange(1 << 30)
                 one_schedule(ctx, img, progs, solo, S.random_policy(random.Random(seed), p=rng.choice([0.02, 0.1, 0.3])), True, label, dict(rep0, line_level_seed=seed))
